@@ -1,5 +1,5 @@
 SPECIFICATION FairSpec
-CONSTANTS MaxThreads = 2 NC = 1 Jobs = 4 Ordered = TRUE MaxSpurious = 1 defaultInitValue = defaultInitValue
+CONSTANTS MaxThreads = 2 NC = 1 Jobs = 4 Ordered = TRUE MaxSpurious = 1 Mixed = FALSE defaultInitValue = defaultInitValue
 INVARIANTS ExactlyOnce NoDup InOrder Bounded
 PROPERTY Live
 CHECK_DEADLOCK FALSE
